@@ -12,6 +12,7 @@ package shamir
 //vx:param assocA quick=15 thorough=255
 //vx:param xmax2 quick=40 thorough=255
 //vx:param xmax3 quick=7 thorough=12
+//vx:param xmaxI3 quick=7 thorough=9
 //vx:entry VxReconstruct3 quick,thorough
 //vx:entry VxIndependence3 quick,thorough
 
@@ -170,7 +171,7 @@ func VxIndependence2() {
 
 func VxIndependence3() {
 	x0, x1 := vxByte("x0"), vxByte("x1")
-	m := vxParam("xmax3")
+	m := vxParam("xmaxI3")
 	vxAssume(x0 != 0 && x1 != 0 && x0 != x1 && int(x0) <= m && int(x1) <= m)
 	x0, x1 = vxConcByte(x0), vxConcByte(x1)
 	s := vxByte("secret")
